@@ -243,7 +243,8 @@ Section ProofsB.
     closed s' = true /\ out s' = out s /\ msgs s' = msgs s.
   Proof.
     intros s p q Hws Hcl Hch Hq Hbad k. cbn zeta. cbn [Model.step]. rewrite Hcl.
-    unfold ew_fuel. cbn [Nat.add Nat.mul]. rewrite Nat.add_comm. cbn [Nat.add Model.ew]. rewrite Hws.
+    replace (ew_fuel s) with (S (3 * length (queue s) + 7))%nat by (unfold ew_fuel; lia).
+    cbn [Model.ew]. rewrite Hws.
     assert (E : closed (fill s) = true /\ out (fill s) = out s /\ msgs (fill s) = msgs s).
     { unfold Model.fill. destruct (send_choked s); sel; rewrite ?Hch; sel; rewrite Hq; sel; rewrite Hbad; sel; auto. }
     destruct E as (E1 & E2 & E3). rewrite E1. auto.
